@@ -575,6 +575,14 @@ func ruleTimestampConverters(c *Ctx, m *Model) {
 				if v, has := ro.F[rp.Path+".Nanos"]; has {
 					nano = st.canon(v)
 				}
+				// generated protobuf getters (possibly called through a small local interface) return the field
+				getter := regexp.MustCompile(`^invoke:Get(Seconds|Nanos)\(&?ts\)$`)
+				if mm := getter.FindStringSubmatch(sec); mm != nil {
+					sec = "ts." + mm[1]
+				}
+				if mm := getter.FindStringSubmatch(nano); mm != nil {
+					nano = "ts." + mm[1]
+				}
 				if sec != "ts.Seconds" || nano != "ts.Nanos" {
 					bad = fmt.Sprintf("the result carries Seconds=%q Nanos=%q, required the argument's", sec, nano)
 				}
